@@ -223,6 +223,7 @@ def run(ctx):
         # C19 ∘ C14: the spelling of group names in the library's files
         if ctx.time_left() > 90:
             P.entry_lookup_oracle(ctx, name, lib, rng.randrange(2 ** 32))
+            P.scheme_names_oracle(ctx, name, lib)
             sample = [x for (n_, x), o in pipe.memo.items() if n_ == name and 'ok' in o]
             rng.shuffle(sample)
             P.library_spelling_oracle(ctx, name, lib, rng.randrange(2 ** 32), sample[:ctx.n(4, 40)], pipe.open(name, lib)[1])
